@@ -68,8 +68,8 @@ def r123_tables(ck, F):
     ck.ob("C14-R3", "scratch-buffer-holds-longest", bool(lens) and all(n is not None and n >= need for n in lens), f"scratch buffers passed to varint_encode32 have lengths {lens}; the longest encoding needs {need} bytes", bw)
 
 
-def r4_use(ck, F):
-    R = "C14-R4"
+def entry_frame_agreement(ck, F, R):
+    """the entry frame as written by BlockWriter::insert and as read back by Block::entry_at (shared with C01-R11)"""
     w = fmt.entry_frame_write(F)
     ck.ob(R, "writer-order", w == [("varint", "len(key)", "u32"), ("varint", "len(val)", "u32"), ("bytes", "key"), ("bytes", "val")], f"BlockWriter::insert appends {w} (expected varint(key.len), varint(val.len), key, val)", F.body(A("bw_insert")))
     r = fmt.entry_frame_read(F)
@@ -78,7 +78,18 @@ def r4_use(ck, F):
     for k in ("key", "val"):
         if k in got:
             got[k] = tuple(got[k])
-    ck.ob(R, "reader-layout", got == want, f"Block::entry_at reads {r} (s = start, n1/n2 = consumed bytes, k/v = decoded lengths; expected key at s+n1+n2 .. +k, value right after, next = end of value)", F.body(A("block_entry_at")))
+    ea = F.body(A("block_entry_at"))
+    ck.ob(R, "reader-layout", got == want, f"Block::entry_at reads {r} (s = start, n1/n2 = consumed bytes, k/v = decoded lengths; expected key at s+n1+n2 .. +k, value right after, next = end of value)", ea)
+    # no test of entry_at turns a well-formed entry into `None`
+    gs = fmt.entry_none_guards(F)
+    ck.floor(R, "end-of-payload tests in Block::entry_at", len(gs), 1, F.config)
+    for ok, msg, site in gs:
+        ck.ob(R, "none-only-past-the-entry", ok, "entry_at answers None only at the end of the payload or on malformed data — " + msg, ea, site)
+
+
+def r4_use(ck, F):
+    R = "C14-R4"
+    entry_frame_agreement(ck, F, R)
     # the value handed to the encoder is the whole length, narrowed once
     bw = F.body(A("bw_insert"))
     for s, c, t in calls(bw, A("varint_encode")):
